@@ -14,6 +14,7 @@ mod p06;
 mod p07;
 mod p08;
 mod p09;
+mod p10;
 mod p13;
 mod zlib;
 mod zmodel;
@@ -100,6 +101,7 @@ fn main() {
         "C07" => p07::run(&mut c),
         "C08" => p08::run(&mut c),
         "C09" => p09::run(&mut c),
+        "C10" => p10::run(&mut c),
         "C13" => p13::run(&mut c),
         "C17" => p17::run(&mut c),
         "C18" => p18::run(&mut c),
